@@ -74,15 +74,18 @@ def addInstructions (p : Program) (is : List Added) : Program := is.foldl addIns
 /-- `clone_without_body_instructions` (mod.rs:212-224), minus the `used_qubits` cache (C10). -/
 def cloneWithoutBody (p : Program) : Program := { p with body := [] }
 
+/-- Declared length of the counter region: `loop_count_reference.index.saturating_add(1)` (u64). -/
+def counterLen (c : MemRef) : Nat := min (c.index + 1) 18446744073709551615
+
 /-- The instruction list built inside `wrap_in_loop` for `iterations ≥ 2` (mod.rs:381-416).
-Note the asymmetry that is in the code: MOVE and JUMP-WHEN use the caller's reference with its
-index, SUB always uses index 0 of the same region. -/
+MOVE, SUB and JUMP-WHEN all use the caller's reference (since /repo 0cfdaad; before that fix SUB was
+hard-coded to index 0 of the region, so a reference with a non-zero index never terminated). -/
 def loopInstructions (body : List Instr) (c : MemRef) (t : Target) (n : Nat) : List Added :=
-  [ .declare c.name { ty := "INTEGER", len := 1, sharing := none },
+  [ .declare c.name { ty := "INTEGER", len := counterLen c, sharing := none },
     .instr (.move c (Int.ofNat n)),
     .instr (.label t) ]
   ++ body.map .instr
-  ++ [ .instr (.sub { name := c.name, index := 0 } 1),
+  ++ [ .instr (.sub c 1),
        .instr (.jumpWhen t c) ]
 
 /-- `Program::wrap_in_loop` (mod.rs:361-421). -/
